@@ -196,6 +196,15 @@ where
             .ok_or(PlanningError::PlannerUninitialised)?;
         let goal = &pd.goal;
 
+        // The root of the tree is the start state: it must be valid, like every other node.
+        let vc = self
+            .validity_checker
+            .as_ref()
+            .ok_or(PlanningError::PlannerUninitialised)?;
+        if !vc.is_valid(&self.tree[0].state) {
+            return Err(PlanningError::InvalidStartState);
+        }
+
         let start_time = Instant::now();
         let mut rng = self
             .rng
